@@ -374,7 +374,15 @@ def _terms_included(want, got):
     # a term that names nothing but anonymous locals (`var:bool`) cannot be recognised again after any rewrite: it claims nothing
     def anonymous(a):
         return a.startswith(('var', 'upvar:var')) or (a.startswith('field:') and a[6:].isdigit())
-    want = [w for w in want if not all(anonymous(a) for a in w.split('@')[0].split('&'))]
+    anon = [w for w in want if all(anonymous(a) for a in w.split('@')[0].split('&'))]
+    want = [w for w in want if w not in anon]
+    # ... unless the same anonymous test is still there with the *opposite* outcome only (`if overflow` -> `if !overflow`):
+    # a flag that was rewritten into something nameable simply has no counterpart and is skipped
+    for w in anon:
+        wa, _, wp = w.partition('@')
+        same = [g for g in got if g.partition('@')[0] == wa]
+        if wp and same and w not in same and all(_COMPLEMENT.get(wp.lstrip('~')) == g.partition('@')[2].lstrip('~') for g in same):
+            return False
     for w in want:
         if w in rest:
             rest.remove(w)
